@@ -73,6 +73,124 @@ def spec_C01(prop, tier, seed, t0):
     return _mk(prop, tier, seed, t0, jobs, {"grants_sharing_with_other_holders": 1000, "distinct_nontrivial": 40})
 
 
+def spec_C07(prop, tier, seed, t0):
+    rng = random.Random(seed * 7919 + 7)
+    profs = ["mixed", "convert", "random", "optimistic", "prepare"]
+    n = 10 if tier == "quick" else 300
+    jobs = lock_jobs(rng, CLASSES, profs, n)
+    return _mk(prop, tier, seed, t0, jobs, {"guard_ownership_checks": 100000})
+
+
+def spec_C08(prop, tier, seed, t0):
+    rng = random.Random(seed * 7919 + 8)
+    profs = ["mixed", "readers", "writers", "convert", "ssix", "sx", "optimistic", "prepare", "random"]
+    n = 14 if tier == "quick" else 400
+    kw = dict(flavor="tsan", ops_total=6000, mcs_ops_total=3000, threads_choices=(2, 3, 4, 6, 8),
+              hold_choices=(0, 500, 2000))
+    jobs = lock_jobs(rng, CLASSES, profs, n, **kw)
+    # republishing SetVersion (the property quantifies over every client program)
+    jobs += lock_jobs(rng, ["opt"], ["optimistic", "prepare", "writers", "mixed"], max(4, n // 3),
+                      extra={"arbver": 1}, **kw)
+    if tier != "quick":
+        kw["flavor"] = "tsanclang"
+        jobs += lock_jobs(rng, CLASSES, profs, 120, **kw)
+    rule = LOCK_RULE + ("; the deciding oracle is ThreadSanitizer's happens-before analysis of plain payload "
+                        "words that are touched only inside granted critical sections")
+    return _mk(prop, tier, seed, t0, jobs, {"exclusive_sections": 2000, "distinct_nontrivial": 40}, rule=rule,
+               assumptions=LOCK_ASSUME + ["TSan derives happens-before from the memory_order arguments in the "
+                                          "source; atomic_thread_fence is not modelled (not used by granted "
+                                          "sections); reports whose racing address is not a payload word are "
+                                          "recorded as observations only"])
+
+
+def spec_C02(prop, tier, seed, t0):
+    rng = random.Random(seed * 7919 + 2)
+    profs = ["mixed", "xonly", "convert", "sx", "writers", "ssix", "random", "readers", "optimistic", "prepare"]
+    if tier == "quick":
+        jobs = lock_jobs(rng, CLASSES, profs, 10, chaos_choices=(2, 3, 3))
+        jobs += lock_jobs(rng, ["mcs"], ["xonly", "mixed", "convert", "sx"], 8, threads_choices=(16, 24),
+                          mcs_ops_total=5000, chaos_choices=(2, 3))
+    else:
+        jobs = lock_jobs(rng, CLASSES, profs, 400, chaos_choices=(1, 2, 3, 3), ops_total=40000, mcs_ops_total=10000)
+        jobs += lock_jobs(rng, ["mcs"], ["xonly", "mixed", "convert", "sx"], 200, threads_choices=(16, 24),
+                          mcs_ops_total=8000, chaos_choices=(2, 3))
+        jobs += lock_jobs(rng, CLASSES, profs, 100, variant="spinalt", chaos_choices=(2, 3))
+    return _mk(prop, tier, seed, t0, jobs, {"ops_total": 100000, "distinct_nontrivial": 40})
+
+
+def spec_C03(prop, tier, seed, t0):
+    rng = random.Random(seed * 7919 + 3)
+    profs = ["optimistic", "prepare", "mixed", "writers", "random"]
+    n = 30 if tier == "quick" else 1500
+    jobs = lock_jobs(rng, ["opt"], profs, n, hold_choices=(0, 500, 2000, 20000), chaos_choices=(2, 3, 3),
+                     ops_total=30000)
+    if tier != "quick":
+        jobs += lock_jobs(rng, ["opt"], profs, 200, variant="spinalt", chaos_choices=(2, 3))
+        jobs += lock_jobs(rng, ["opt"], profs, 100, flavor="asan", ops_total=10000)
+    return _mk(prop, tier, seed, t0, jobs,
+               {"opt_checks_ok": 5000, "opt_checks_failed": 500, "opt_windows_overlapping_an_exclusive_section": 200})
+
+
+def spec_C09(prop, tier, seed, t0):
+    rng = random.Random(seed * 7919 + 9)
+    profs = ["writers", "mixed", "convert", "optimistic", "random"]
+    n = 16 if tier == "quick" else 600
+    jobs = lock_jobs(rng, ["opt"], profs, n)
+    jobs += lock_jobs(rng, ["opt"], profs, n, extra={"arbver": 1})
+    return _mk(prop, tier, seed, t0, jobs, {"version_checks_under_shared_hold": 2000, "exclusive_sections": 20000})
+
+
+def spec_C10(prop, tier, seed, t0):
+    rng = random.Random(seed * 7919 + 10)
+    profs = ["convert", "mixed", "random", "ssix"]
+    n = 12 if tier == "quick" else 500
+    jobs = lock_jobs(rng, CLASSES, profs, n, chaos_choices=(2, 3, 3))
+    if tier != "quick":
+        jobs += lock_jobs(rng, CLASSES, profs, 100, variant="spinalt", chaos_choices=(2, 3))
+    return _mk(prop, tier, seed, t0, jobs, {"upgrades": 5000, "downgrades": 5000})
+
+
+def spec_C11(prop, tier, seed, t0):
+    rng = random.Random(seed * 7919 + 11)
+    profs = ["mixed", "starve", "sx", "writers", "convert", "ssix", "readers", "random"]
+    n = 32 if tier == "quick" else 1500
+    jobs = lock_jobs(rng, ["mcs"], profs, n, threads_choices=(4, 6, 8, 12, 16), hold_choices=(2000, 20000, 50000),
+                     mcs_ops_total=5000, chaos_choices=(1, 2, 3))
+    return _mk(prop, tier, seed, t0, jobs,
+               {"mcs_requests_with_arrival_stamp": 20000, "mcs_grants_with_later_conflicting_waiters": 2000})
+
+
+def spec_C12(prop, tier, seed, t0):
+    rng = random.Random(seed * 7919 + 12)
+    profs = ["mixed", "readers", "sx", "ssix", "convert", "starve", "random", "writers"]
+    n = 24 if tier == "quick" else 1000
+    jobs = lock_jobs(rng, ["mcs"], profs, n, hold_choices=(500, 2000, 20000), locks_choices=(1, 2, 3),
+                     mcs_ops_total=6000, chaos_choices=(1, 2, 3))
+    jobs += lock_jobs(rng, ["mcs"], profs, n // 2, flavor="asan", hold_choices=(500, 2000, 20000),
+                      locks_choices=(1, 2, 3), mcs_ops_total=4000, chaos_choices=(1, 2, 3))
+    return _mk(prop, tier, seed, t0, jobs, {"mcs_nodes_allocated": 500, "ops_total": 50000})
+
+
+def spec_C13(prop, tier, seed, t0):
+    rng = random.Random(seed * 7919 + 13)
+    profs = ["prepare"]
+    n = 30 if tier == "quick" else 1500
+    jobs = lock_jobs(rng, ["opt"], profs, n, hold_choices=(2000, 20000, 50000), chaos_choices=(2, 3, 3),
+                     threads_choices=(3, 4, 6, 8, 12), ops_total=20000)
+    if tier != "quick":
+        jobs += lock_jobs(rng, ["opt"], profs, 300, variant="spinalt", hold_choices=(2000, 20000))
+    return _mk(prop, tier, seed, t0, jobs, {"prepare_owning": 500, "prepare_optimistic": 5000})
+
+
 SPECS = {
+    "C02": spec_C02,
+    "C03": spec_C03,
+    "C09": spec_C09,
+    "C10": spec_C10,
+    "C11": spec_C11,
+    "C12": spec_C12,
+    "C13": spec_C13,
+    "C07": spec_C07,
+    "C08": spec_C08,
     "C01": spec_C01,
 }
